@@ -42,6 +42,8 @@ void verif_reg_prog(const char *name, int kind, int (*fn)(void *))
 	progs[nprogs].name = name; progs[nprogs].kind = kind; progs[nprogs].fn = fn; nprogs++;
 }
 void verif_register_all(void); /* generated */
+struct verif_member { const char *st; const char *member; int off; int size; };
+extern const struct verif_member verif_layout[]; /* generated: offsetof/sizeof of every struct in the program file */
 
 static struct vmap *map_by_addr(void *a) { for (int i = 0; i < nmaps; i++) if (maps[i].addr == a) return &maps[i]; return NULL; }
 static struct vmap *map_by_name(const char *n) { for (int i = 0; i < nmaps; i++) if (!strcmp(maps[i].name, n)) return &maps[i]; return NULL; }
@@ -277,6 +279,12 @@ int main(void)
 			wr32(nmaps);
 			for (int i = 0; i < nmaps; i++) { wrstr(maps[i].name); wr32(maps[i].type); wr32(maps[i].ksz); wr32(maps[i].vsz); wr32(maps[i].max); }
 			break;
+		case 'Y': {
+			int n = 0;
+			while (verif_layout[n].st) n++;
+			wr32(n);
+			for (int i = 0; i < n; i++) { wrstr(verif_layout[i].st); wrstr(verif_layout[i].member); wr32(verif_layout[i].off); wr32(verif_layout[i].size); }
+			break; }
 		case 'P':
 			wr32(nprogs);
 			for (int i = 0; i < nprogs; i++) { wrstr(progs[i].name); wr32(progs[i].kind); }
